@@ -315,11 +315,8 @@ def run_case(scn, plan=None, plan_class="none", report_fmt="default", emuclone=T
             files1 += prj.files(tdir, invT1, "")
         m = re.search(rb"Processed (\d+) files", r.err)
         processed = int(m.group(1)) if m else -1
-        if processed >= 0 and scn.extra_groups:
-            # `Processed N files` also counts the files of the extra groups, which are outside the modelled world: each of them has one
-            # droppable file, processed unless a warning names it
-            failed_extra = {m_.group(1) for m_ in re.finditer(rb"/r/(h\d+)/", b"\n".join(l for l in r.err.split(b"\n") if b"warn" in l))}
-            processed -= scn.extra_groups - len(failed_extra)
+        if scn.extra_groups:
+            processed = -2        # `Processed N files` also counts the files of the extra groups, which are outside the modelled world
         warns = len(re.findall(rb"warn", r.err))
         mt1 = [{"f": prj.path(os.path.join(work, rel)), "v": str(rr["mtime"])} for rel, rr in inv1.items() if rr["t"] == "f" and rel.startswith("r/")]
         end = {"ev": "End", "inv": files1, "processed": processed, "warns": warns, "rc": r.rc,
@@ -355,18 +352,28 @@ def validate(chk, runs, prop_invariants, label):
     prop_invariants: names of invariants that are violations of the property being checked (others are reported as notes)."""
     groups = {}
     for scn, events in runs:
-        groups.setdefault((scn.op, scn.nolock), []).append(events)
+        groups.setdefault((scn.op, scn.nolock), []).append((scn, events))
     outdir = lib.mkscratch("dopsv")
     total = 0
     try:
         for (op, nolock), lst in sorted(groups.items()):
-            tf = os.path.join(outdir, f"trace_{op}_{int(nolock)}.ndjson")
-            with open(tf, "w") as f:
-                for events in lst:
-                    for e in events:
-                        f.write(json.dumps(denull(e)) + "\n")
+            tfs = {}
+            for mode in ("obs", "full"):
+                tfs[mode] = os.path.join(outdir, f"trace_{op}_{int(nolock)}_{mode}.ndjson")
+                with open(tfs[mode], "w") as f:
+                    for scn_, events in lst:
+                        # a process killed while other worker threads are inside system calls: calls that completed in the kernel but
+                        # were not logged yet are unknown, so such a run cannot drive the specification step by step (mode full);
+                        # its end state is still judged (mode obs)
+                        if mode == "full" and scn_.threads > 1 and events[0].get("plan") == "kill":
+                            continue
+                        for e in events:
+                            f.write(json.dumps(denull(e)) + "\n")
             total += len(lst)
             for mode in ("obs", "full"):
+                tf = tfs[mode]
+                if os.path.getsize(tf) == 0:
+                    continue
                 cfg = os.path.join(lib.BUILD, f"Trace_DedupeOps_{op}_{int(nolock)}_{mode}.cfg")
                 with open(cfg, "w") as f:
                     f.write(CFG.format(op=op, nolock="TRUE" if nolock else "FALSE", mode=mode))
@@ -391,3 +398,65 @@ def validate(chk, runs, prop_invariants, label):
     finally:
         lib.rmtree(outdir)
     return total
+
+
+STRACE_CALLS = "rename,renameat,renameat2,link,linkat,symlink,symlinkat,unlink,unlinkat,mkdir,mkdirat,rmdir"
+
+
+def strace_crosscheck(scn):
+    """Instrument check: the same run observed by the LD_PRELOAD interposer and by strace (ptrace, independent of symbol interposition)
+    must show the same path-mutating system calls. Returns (ok, detail). None if strace cannot be used here."""
+    work = lib.mkscratch("stx")
+    tdir_outside = None
+    try:
+        root, members, tdir = materialize(scn, work)
+        if tdir and not tdir.startswith(work):
+            tdir_outside = tdir
+        env = lib.base_env(work)
+        env["RAYON_NUM_THREADS"] = str(scn.threads)
+        rep = os.path.join(work, "report")
+        g = lib.run_fclones(["group", "r", "-o", rep], work, env)
+        if g.rc != 0:
+            raise lib.ToolError("group failed in strace cross-check")
+        logf = os.path.join(work, "shim.log")
+        senv = lib.shim_env(env, log_path=logf, root=work + (":" + tdir if tdir_outside else ""))
+        args = list(OPS[scn.op]) + ([tdir] if scn.op == "move" else [])
+        stp = os.path.join(work, "st")
+        with open(rep, "rb") as f:
+            r = subprocess.run(["strace", "-ff", "-o", stp, "-e", "trace=" + STRACE_CALLS, "--", lib.FCLONES] + args, cwd=work, env=senv, stdin=f,
+                               capture_output=True, timeout=120)
+        if b"ptrace" in r.stderr and b"Operation not permitted" in r.stderr:
+            return None, "ptrace not permitted"
+        roots = [work] + ([tdir] if tdir_outside else [])
+        under = lambda p: p is not None and any(os.path.normpath(p) == x or os.path.normpath(p).startswith(x + "/") for x in roots)
+        seen_st = []
+        for fn in os.listdir(work):
+            if not fn.startswith("st."):
+                continue
+            for line in open(os.path.join(work, fn), errors="replace"):
+                m = re.match(r"(\w+)\((.*)\)\s+= (-?\d+)", line)
+                if not m:
+                    continue
+                name, argtxt, ret = m.group(1), m.group(2), int(m.group(3))
+                paths = [bytes(x, "latin-1").decode("unicode_escape").encode("latin-1").decode("utf-8", "surrogateescape") for x in re.findall(r'"((?:[^"\\]|\\.)*)"', argtxt)]
+                paths = [p if os.path.isabs(p) else os.path.join(work, p) for p in paths]
+                cls = {"renameat": "rename", "renameat2": "rename", "linkat": "link", "symlinkat": "symlink", "unlinkat": "unlink", "mkdirat": "mkdir"}.get(name, name)
+                if name == "unlinkat" and "AT_REMOVEDIR" in argtxt:
+                    cls = "rmdir"
+                if cls == "symlink":
+                    paths = [paths[-1]]                   # the target text is not a path of the tree
+                if any(under(p) for p in paths):
+                    seen_st.append((cls, tuple(os.path.normpath(p) for p in paths), ret >= 0))
+        seen_sh = []
+        for e in lib.read_shim_log(logf):
+            if e["call"] in ("rename", "link", "symlink", "unlink", "mkdir", "rmdir") and e.get("inj", 0) == 0:
+                ps = [e.get("p1")] if e["call"] in ("unlink", "mkdir", "rmdir") else ([e.get("p1")] if e["call"] == "symlink" else [e.get("p1"), e.get("p2")])
+                seen_sh.append((e["call"], tuple(os.path.normpath(p) for p in ps if p), e["ret"] >= 0))
+        a, b = sorted(seen_st), sorted(seen_sh)
+        if a != b:
+            return False, {"only_strace": [x for x in a if x not in b][:5], "only_interposer": [x for x in b if x not in a][:5], "strace": len(a), "interposer": len(b)}
+        return True, {"calls": len(a)}
+    finally:
+        lib.rmtree(work)
+        if tdir_outside:
+            lib.rmtree(tdir_outside)
